@@ -4,6 +4,10 @@ CLAIMED = {
   "text": "Bounded symbolic model checking of the real rlp package (EncodeToBytes/DecodeBytes/Split/Stream through a reflect model): for every byte string up to the stated length and every value of the listed Go types the solver shows round trip, canonicity (accepted input re-encodes to itself), totality (no panic path feasible) and allocation bounds; counterexamples are replayed natively.",
   "note": "Trusted: go/ssa front end, the gosym interpreter and its reflect/sync/big.Int models (validated on every run by executing solver models natively and comparing observations), z3. Inputs longer than the bound and types not listed are outside the claim.",
  },
+ "C10": {
+  "text": "Bounded symbolic model checking of the EVM word opcodes through the real EVMInterpreter.Run: for every 256-bit operand tuple the returned word equals the Yellow-Paper definition written as one SMT bit-vector operation; memory, stack-manipulation, jump-validity, calldata and return-data selection are checked against in-harness reference models for all offsets/sizes within the stated small ranges.",
+  "note": "Trusted: gosym and its models, z3; holiman/uint256 multiply/divide/exp kernels (a module dependency) replaced by exact semantics, so for those opcodes what is decided is the glue in instructions.go (operand order, zero cases). Every Proposal fork active (height 2^40, mainnet config).",
+ },
 }
 PENDING = "check not built yet in this session (planned, see DESIGN.md section 5)"
 NA = {
